@@ -5,5 +5,6 @@ CONSTANTS
   MaxLabel = 63
   MaxName = 255
 INVARIANT ExactOK
+INVARIANT EmptyOK
 INVARIANT Emit
 CHECK_DEADLOCK FALSE
